@@ -42,6 +42,17 @@ func replayObligation(prog *Prog, fr *FuncResult, o *Obligation, prop, path stri
 			rec[k] = x
 		}
 	}
+	if o.Status != "failed" && fr.Lemma == nil {
+		// no model, but a scenario harness written for this obligation needs none
+		if tv, te, ok := tryObligationTemplate(fr, o); ok {
+			if tv != "" {
+				verdict = tv
+			}
+			for k, x := range te {
+				rec[k] = x
+			}
+		}
+	}
 	rec["verdict"] = verdict
 	writeJSON(path, rec)
 	return verdict
